@@ -107,7 +107,7 @@ class Seq(V):
 
 
 def _src_vars(w, acc):
-    if w is None or w[0] == "cellbyte":
+    if w is None or w[0] in ("cellbyte", "zeros"):
         return
     if w[0] == "cat":
         _src_vars(w[1], acc)
@@ -131,14 +131,14 @@ def _src_vars(w, acc):
 
 
 def src_rename(w, f):
-    if w is None or w[0] == "cellbyte":
+    if w is None or w[0] in ("cellbyte", "zeros"):
         return w
     if w[0] == "cat":
         return ("cat", src_rename(w[1], f), w[2].rename(f), src_rename(w[3], f))
     if w[0] == "patch":
         d = w[4]
         if d[0] == "be":
-            d = ("be", d[1], d[2].rename(f) if isinstance(d[2], Lin) else d[2])
+            d = ("be", d[1], d[2].rename(f) if isinstance(d[2], Lin) else d[2]) + tuple(d[3:])
         elif d[0] == "src":
             d = ("src", src_rename(d[1], f))
         return ("patch", src_rename(w[1], f), w[2].rename(f), w[3].rename(f), d)
@@ -149,7 +149,7 @@ def src_rename(w, f):
 
 def src_atom(w):
     """is this content description a plain window (id, offset) of an identified content"""
-    return w is not None and w[0] not in ("cat", "patch", "sub", "cellbyte")
+    return w is not None and w[0] not in ("cat", "patch", "sub", "cellbyte", "zeros")
 
 
 def src_window(w, total, lo):
@@ -158,6 +158,8 @@ def src_window(w, total, lo):
         return None
     if src_atom(w):
         return (w[0], w[1] + lo)
+    if w[0] == "zeros":
+        return w
     if w[0] == "sub":
         return ("sub", w[1], w[2], w[3] + lo)
     return ("sub", w, total, lo)
